@@ -2063,7 +2063,7 @@ impl<'a> CompilerState<'a> {
                     superstart = Some(start);
                 }
                 Rule::var_sign => {
-                    return_signed = pair.as_str().eq("return_signed");
+                    return_signed = pair.as_str().eq("signed");
                 }
                 Rule::var_simple_type => {
                     if pair.as_str().starts_with("char") {
